@@ -519,16 +519,93 @@ func (p *Program) applyFieldRenames() []string {
 // sigString: parameter and result types of a function, package paths shortened.
 func sigString(fn *ssa.Function) string {
 	q := func(pk *types.Package) string { return relPkgName(pk) }
-	tup := func(t *types.Tuple) string {
+	tup := func(t *types.Tuple, sorted bool) string {
 		var parts []string
 		for i := 0; i < t.Len(); i++ {
 			parts = append(parts, types.TypeString(t.At(i).Type(), q))
 		}
+		if sorted {
+			sort.Strings(parts) // a renamed function may also have its parameters reordered
+		}
 		return strings.Join(parts, ",")
 	}
-	s := "(" + tup(fn.Signature.Params()) + ")(" + tup(fn.Signature.Results()) + ")"
+	s := "(" + tup(fn.Signature.Params(), true) + ")(" + tup(fn.Signature.Results(), false) + ")"
 	if fn.Signature.Variadic() {
 		s += "..."
 	}
 	return s
+}
+
+// ---------------------------------------------------------------------------
+// Reordered parameters: the reference table records the parameter names of every function;
+// when a function still has exactly those names in another order, positions are read in
+// the old order on both sides (argument k at call sites, parameter pk inside the body).
+
+var knownParams map[string][]string
+
+var permMemo = map[*ssa.Function][]int{} // old index → current index (nil: identity)
+
+func paramPerm(fn *ssa.Function) []int {
+	if fn == nil {
+		return nil
+	}
+	if v, ok := permMemo[fn]; ok {
+		return v
+	}
+	permMemo[fn] = nil
+	knownFunc("")
+	old := knownParams[FuncKey(fn)]
+	if len(old) == 0 || len(old) != len(fn.Params) {
+		return nil
+	}
+	cur := map[string]int{}
+	for i, p := range fn.Params {
+		if p.Name() == "" || p.Name() == "_" {
+			return nil
+		}
+		if _, dup := cur[p.Name()]; dup {
+			return nil
+		}
+		cur[p.Name()] = i
+	}
+	perm := make([]int, len(old))
+	identity := true
+	for k, name := range old {
+		i, ok := cur[name]
+		if !ok {
+			return nil
+		}
+		perm[k] = i
+		if i != k {
+			identity = false
+		}
+	}
+	if identity {
+		return nil
+	}
+	permMemo[fn] = perm
+	return perm
+}
+
+// oldParamIndex: the position parameter number cur had when the rules were written.
+func oldParamIndex(fn *ssa.Function, cur int) int {
+	perm := paramPerm(fn)
+	for k, i := range perm {
+		if i == cur {
+			return k
+		}
+	}
+	return cur
+}
+
+// ArgK: the argument of a call that binds what was parameter k of the callee when the rules
+// were written (receiver included for static method calls).
+func ArgK(c ssa.CallInstruction, k int) ssa.Value {
+	args := c.Common().Args
+	if g := c.Common().StaticCallee(); g != nil {
+		if perm := paramPerm(g); perm != nil && k < len(perm) && perm[k] < len(args) {
+			return args[perm[k]]
+		}
+	}
+	return args[k]
 }
